@@ -166,11 +166,34 @@ func (d *Driver) OpenWith(c StoreCfg) error {
 	return d.OpenWithCtx(context.Background(), c)
 }
 
+// ageStore writes, into an empty directory, the state of a store whose first
+// n index and primary files were released by GC (see StoreCfg.Aged).
+func ageStore(c StoreCfg) {
+	fs := fsOf()
+	if fs == nil || c.Aged <= 0 {
+		return
+	}
+	if _, ok := fs.ReadFileDirect(indexPath + ".info"); ok {
+		return // not the first open
+	}
+	if len(fs.Files()) != 0 {
+		return
+	}
+	ifile, pfile := c.IndexFile, c.PrimaryFile
+	fs.WriteFileDirect(indexPath+".info", []byte(fmt.Sprintf(`{"Version":3,"BucketsBits":%d,"MaxFileSize":%d,"FirstFile":%d,"PrimaryFileSize":%d}`, c.Bits, ifile, c.Aged, pfile)))
+	fs.WriteFileDirect(fmt.Sprintf("%s.%d", indexPath, c.Aged), nil)
+	if c.Primary != "CID" {
+		fs.WriteFileDirect(dataPath+".info", []byte(fmt.Sprintf(`{"Version":1,"MaxFileSize":%d,"FirstFile":%d}`, pfile, c.Aged)))
+		fs.WriteFileDirect(fmt.Sprintf("%s.%d", dataPath, c.Aged), nil)
+	}
+}
+
 func (d *Driver) OpenWithCtx(ctx context.Context, c StoreCfg) error {
 	pt := store.MultihashPrimary
 	if c.Primary == "CID" {
 		pt = store.CIDPrimary
 	}
+	ageStore(c)
 	st, err := store.OpenStore(ctx, pt, dataPath, indexPath, c.Immutable, c.Options()...)
 	if err != nil {
 		return err
